@@ -27,19 +27,26 @@ def gen(tier, seed):
     for v in vecs:
         U, p = v["U"], v["p"]
         n = npts_of(U, p)
-        if n > 6:
+        if n > 5:
             continue
         ks = distinct(U)
         mids = [(x + y) / 2 for x, y in zip(ks[:-1], ks[1:])]
         if ks[0] < 0 < ks[-1] and F(0) not in ks:
             mids.append(F(0))
+        # over-elevated by two degrees, then a new simple knot: degree_clean must still come down step by step
+        if p + 2 <= 3 and n <= 4:
+            for op in (["clean"], ["dclean"]):
+                cases.append({"U": fsl(U), "p": p, "kind": v["kind"], "mults": v["mults"], "scalar": True,
+                              "P": pts_json(generic_points(rnd, n, 1)),
+                              "hist": [["elev", 2] if rnd.random() < 0.5 else ["elev", 1], ["elev", 1], ["ins", fsl(mids[:1])]][-3:],
+                              "op": op, "raised": True})
         for rep in range(2 if tier == "quick" else 5):
             dim = rnd.choice((1, 1, 2))
             hist = []
             raised = 0
             cur = {x: U.count(x) for x in ks}
             for _ in range(rnd.randint(1, 3 if tier == "quick" else 4)):
-                if rnd.random() < 0.3 and raised < 1 and p + raised < 3:
+                if rnd.random() < 0.35 and raised < 2 and p + raised < 4:
                     hist.append(["elev", 1])
                     raised += 1
                     cur = {x: m + 1 for x, m in cur.items()}
